@@ -260,7 +260,7 @@ Lemma ovals_setpos (k : option (list Z)) : nonempty k = true ->
 Proof. destruct k as [[|x t]|]; [discriminate|reflexivity|reflexivity]. Qed.
 
 (* rule -> recorded arguments -> constructor = the same rule *)
-Theorem ctor_idem ev st kw r : ctor ev (Some st) kw = Ok r -> e_fwd ev = 0 -> wf_args kw = true ->
+Theorem ctor_idem ev st kw r : ctor ev (Some st) kw = Ok r -> (e_fwd ev = 0 \/ r_wkst r <> 0) -> wf_args kw = true ->
   ctor ev (Some (r_dtstart r)) (kw_of_rule r) = Ok r.
 Proof.
   intros H Hfwd Hwf.
@@ -288,7 +288,7 @@ Proof.
   pose proof (sub_byset_idem _ _ _ _ _ _ _ _ Hh ltac:(assumption)) as Hh2.
   pose proof (sub_byset_idem _ _ _ _ _ _ _ _ Hmi ltac:(assumption)) as Hmi2.
   pose proof (sub_byset_idem _ _ _ _ _ _ _ _ Hsec ltac:(assumption)) as Hsec2.
-  subst r. cbn [r_dtstart].
+  subst r. cbn [r_dtstart]. cbn [r_wkst] in Hfwd. fold wkst in Hfwd.
   assert (Ei : match k_interval (kw_of_rule (mkrule start fq interval wkst (k_count kw) (k_until kw)
              (k_bysetpos kw) rm rp rn ry re rw rwd rnwd rh rmi rs
              (match k_bysetpos kw with Some (x :: r) => OVals (x :: r) | _ => OAbsent end)
